@@ -24,7 +24,7 @@ ASSUMPTIONS = [
     "at most k states more than the minimal reference automaton",
     "element 'metadata' is judged against 'at most one child of any name' (C05), not its empty children section",
 ]
-REQUIRED = ["reorders_in_place_on_reused_parent", "real_names_as_strangers", "child_names_of_a_str_subclass", "mixed_parents_with_blank_or_real_text", "sequences_longer_than_256", "table_edit_probes", "validations_of_nested_parent", "foreign_children_with_prefix", "validations_on_reused_parent_object", "validations_on_reused_rule_object", "collecting_calls_with_prefilled_list", "failfast_accept", "failfast_reject", "collecting_accept", "collecting_reject", "oracle_crosschecks"]
+REQUIRED = ["validations_below_a_real_parent", "parents_with_optional_attributes", "colon_named_children_with_declared_prefix", "collecting_calls_with_a_very_long_list", "reorders_in_place_on_reused_parent", "real_names_as_strangers", "child_names_of_a_str_subclass", "mixed_parents_with_blank_or_real_text", "sequences_longer_than_256", "table_edit_probes", "validations_of_nested_parent", "foreign_children_with_prefix", "validations_on_reused_parent_object", "validations_on_reused_rule_object", "collecting_calls_with_prefilled_list", "failfast_accept", "failfast_reject", "collecting_accept", "collecting_reject", "oracle_crosschecks"]
 EXHAUSTIVE = {"quick": False, "thorough": False}
 
 FOREIGN_NAME = "verifForeignElement"
@@ -131,12 +131,14 @@ _RULE_OBJECTS = {}
 _PREVIOUS = {}
 
 
-def judge(ctx, rule_name, element, seq, expected, stats=None, reuse=False, foreign_as=None):
+def judge(ctx, rule_name, element, seq, expected, stats=None, reuse=False, foreign_as=None, below=None):
     """Runs the real validator in both modes on one sequence and compares with `expected`."""
     names = _materialise(seq, emlkit.spec_of(rule_name).names) if foreign_as is None else [foreign_as if a == relang.FOREIGN else a for a in seq]
     wit = {"rule": rule_name, "element": element, "seq": list(seq)}
     if foreign_as is not None:
         wit["foreign_as"] = foreign_as
+    if below is not None:
+        wit["below"] = below
     if reuse:
         # a long-lived Rule object too (a caller that keeps `r = Rule(name)` or `get_rule(name)` around): what it validated before -
         # including a fail-fast validation that ended in a raise - must not matter
@@ -152,6 +154,15 @@ def judge(ctx, rule_name, element, seq, expected, stats=None, reuse=False, forei
             # a third of the parents hang below a grandparent (as inside a document); foreign children sometimes carry a
             # namespace prefix (a prefixed stranger is still a stranger)
             nested = (len(seq) + len(element or "")) % 3 == 0
+            if below is not None:
+                nested = below
+            elif nested and (len(seq) + len(rule_name)) % 2 == 0:
+                # ... a parent of the real vocabulary that allows this element (what its own parent is called says nothing about a
+                # node's children)
+                real_parents = emlkit.parents_allowing(element) if element else ()
+                if real_parents:
+                    nested = real_parents[(len(seq) + len(names)) % len(real_parents)]
+                    ctx.count("validations_below_a_real_parent")
             pref = {i: ("dc", "stmml", "eml")[i % 3] for i, a in enumerate(seq) if a == relang.FOREIGN and (i + len(seq)) % 2 == 0}
             bound = "http://www.opengis.net/gml" if pref and len(seq) % 2 == 0 else None
             # child names are sometimes instances of a str subclass, and a mixed-content parent sometimes holds blank or real text:
@@ -160,8 +171,21 @@ def judge(ctx, rule_name, element, seq, expected, stats=None, reuse=False, forei
             content = "__canonical__"
             if emlkit.is_mixed(rule_name):
                 content = ("__canonical__", " ", "\n    ", "\xa0", "some text", "__canonical__")[(len(seq) + len(element or "")) % 6]
+            attrs = None
+            if (len(seq) + len(rule_name)) % 3 == 1:
+                # every optional attribute the rule declares is present too (an id, a scope, a system): attributes say nothing about
+                # the children
+                attrs = dict(emlkit.valid_attributes(rule_name), **emlkit.optional_attributes(rule_name))
+                if len(attrs) > len(emlkit.valid_attributes(rule_name)):
+                    ctx.count("parents_with_optional_attributes")
             parent = emlkit.make_node(rule_name, element, names, nested=nested, child_prefix=pref, child_ns=bound, content=content,
-                                      name_type=emlkit.NameStr if subclass else str)
+                                      name_type=emlkit.NameStr if subclass else str, attributes=attrs)
+            if any(":" in nm_ and not nm_.startswith("{") for nm_ in names) and (len(seq) % 2 == 1 or foreign_as is not None):
+                # the prefix a colon-named child is written with is declared on the parent (the children inherit it)
+                for nm_ in names:
+                    if ":" in nm_ and not nm_.startswith("{"):
+                        parent.add_namespace(nm_.split(":")[0], "https://eml.ecoinformatics.org/eml-2.2.0")
+                ctx.count("colon_named_children_with_declared_prefix")
             if subclass and names:
                 ctx.count("child_names_of_a_str_subclass")
             if content != "__canonical__":
@@ -176,6 +200,9 @@ def judge(ctx, rule_name, element, seq, expected, stats=None, reuse=False, forei
             # an error list that already holds entries (validate.tree shares one list across nodes): only what this call
             # appends counts, and what was there must stay
             errs.append(_earlier_entry())
+            if len(seq) % 7 == 3:
+                errs.extend([_earlier_entry()] * (1000 if len(seq) % 2 else 5000))     # a list that is already very long
+                ctx.count("collecting_calls_with_a_very_long_list")
             twin = emlkit.make_node(rule_name, element, names)
             try:
                 emlkit.validate_as(rule_name, twin, errs)
@@ -324,7 +351,18 @@ def run_rule(ctx, rule_name, tier, part, parts):
         # names of the real vocabulary that this rule does not declare (elements of EML the library has no mapping for, elements that
         # belong elsewhere): strangers like any other, under every element the rule governs
         base0 = tuple(emlkit.shortest_valid_sequence(rule_name) or [])
-        for fname in ("studyAreaDescription", "protocol", "software", "citation", "references", "metadata", "annotation", "para"):
+        # every element of the rule below every element of the vocabulary that allows it, with a shortest valid sequence through each of
+        # its children: what the node's own parent is called says nothing about its children
+        for el in [e for e in elements if e != "metadata"]:
+            for gp in emlkit.parents_allowing(el):
+                for c in spec.names:
+                    seq = emlkit.sequence_through(rule_name, c)
+                    if seq is not None:
+                        judge(ctx, rule_name, el, seq, m.verdict(seq), stats, below=gp)
+                        ctx.count("validations_below_a_real_parent")
+        strangers = ["studyAreaDescription", "protocol", "software", "citation", "references", "metadata", "annotation", "para"]
+        strangers += ["eml:" + nm for nm in spec.names[:2]] + ["stmml:" + nm for nm in spec.names[:1]]       # (prefix declared on the parent)
+        for fname in strangers:
             if fname in spec.names:
                 continue
             for el in [e for e in elements if e != "metadata"]:
@@ -454,8 +492,8 @@ def replay(ctx, witness):
         exp = relang.ACCEPT if len(seq) <= 1 else relang.REJECT
     else:
         exp = m.verdict(seq)
-    if witness.get("foreign_as"):
-        out = judge(ctx, r, witness.get("element"), seq, exp, foreign_as=witness["foreign_as"])
+    if witness.get("foreign_as") or witness.get("below"):
+        out = judge(ctx, r, witness.get("element"), seq, exp, foreign_as=witness.get("foreign_as"), below=witness.get("below"))
     elif witness.get("reused_objects"):
         prev = witness.get("previous_seq")
         if prev is not None:
